@@ -55,9 +55,9 @@ impl Encode for SubscriptionOptions {
         let mut encoder = Encoder::from(buf);
         let qos = self.maximum_qos;
         let val = (qos as u8)
-            | ((self.no_local as u8) << 3)
-            | ((self.retain_as_published as u8) << 4)
-            | ((self.retain_handling as u8) << 5);
+            | ((self.no_local as u8) << 2)
+            | ((self.retain_as_published as u8) << 3)
+            | ((self.retain_handling as u8) << 4);
         encoder.encode(val);
     }
 }
